@@ -57,13 +57,15 @@ func GetJsonDataType(t dsl.Type) JsonDataType {
 		case dsl.ComplexFloat32, dsl.ComplexFloat64:
 			return JsonArray
 		case dsl.Date, dsl.Time, dsl.DateTime:
-			return JsonNumber
+			// dates, times and datetimes are written as formatted strings
+			return JsonString
 		default:
 			panic(fmt.Sprintf("unexpected primitive type %s", td))
 		}
 	case *dsl.EnumDefinition:
 		if td.IsFlags {
-			return JsonArray
+			// an array of symbols, or the integer value if it is not a combination of defined symbols
+			return JsonArray | JsonNumber
 		}
 		return JsonString | JsonNumber
 	case *dsl.RecordDefinition:
